@@ -318,6 +318,7 @@ type ScriptCfg struct {
 	Faulty  bool // status codes <= 0 as well
 	Data    bool // Set / AddError / Observe
 	Pollute bool // wrap c.Resp, replace c.Req, mutate Params
+	Yields  bool // scheduling points at entry, around Next() and at exit (C03)
 	Nexts   []int
 }
 
@@ -387,11 +388,20 @@ func GenScript(t *rapid.T, w *World, prefix string, cfg ScriptCfg) *Script {
 			}
 		}
 	}
+	yield := func() {
+		if cfg.Yields && rapid.IntRange(0, 3).Draw(t, "yield") > 0 {
+			ops = append(ops, Op{K: OpYield})
+		}
+	}
+	yield()
 	misc()
 	for i := 0; i < n; i++ {
+		yield()
 		ops = append(ops, Op{K: OpNext})
+		yield()
 		misc()
 	}
+	yield()
 	if cfg.Abort > 0 && rapid.IntRange(1, cfg.Abort).Draw(t, "aborts") == 1 {
 		at := rapid.IntRange(0, len(ops)).Draw(t, "abortAt")
 		ins := []Op{genAbort(t)}
